@@ -66,6 +66,26 @@ func init() {
 				for _, rc := range fa.ReturnCases(0) {
 					got = append(got, ordinalRe.ReplaceAllString(rc.T.String(), ""))
 				}
+				// a formula given as a call of another module function (one reviewed helper defined by another) is judged on
+				// that function's cases with the arguments substituted
+				if len(got) == 1 {
+					if rcs := fa.ReturnCases(0); len(rcs) == 1 {
+						if ex := e.expandTopCall(rcs[0].T); len(ex) > 0 {
+							match := false
+							for _, w := range s.rets {
+								if w == got[0] {
+									match = true
+								}
+							}
+							if !match {
+								got = nil
+								for _, t := range ex {
+									got = append(got, ordinalRe.ReplaceAllString(t.String(), ""))
+								}
+							}
+						}
+					}
+				}
 				sort.Strings(got)
 				want := append([]string{}, s.rets...)
 				sort.Strings(want)
@@ -189,7 +209,9 @@ func init() {
 					a := argT(fa, c, 0)
 					if a.Op == "field" && a.Name == "Amount" && a.Args[0].IsCall("types.GetDelegationTokens") {
 						ga := a.Args[0].CallArgsT()
-						okT = ga[0].String() == "$delegation" && ga[1].String() == "$validator" && ga[2].String() == "$asset"
+						// the three values the function was called for: parameters, or fields of a parameter that groups them
+						// (the three have distinct types, so `a parameter-rooted value of the right type` is unambiguous)
+						okT = len(ga) == 3 && paramRooted(ga[0]) && paramRooted(ga[1]) && paramRooted(ga[2])
 					}
 				}
 				r.Check(okT, k, "claim weight = the position's current token value", "NewDecFromInt(GetDelegationTokens(delegation, validator, asset).Amount)", "the payout is no longer weighted by the token value of the claiming delegation", e.Pos(fn.Pos()))
@@ -207,38 +229,47 @@ func init() {
 			// two subtractions from the accumulator: clamp branch subtracts (denom, a1) under a2 > a1 && a2-a1 < 1; else subtracts d2
 			var clamp, plain bool
 			for _, c := range CallsTo(fn, "sdk.DecCoins.Sub") {
-				d, a := decCoinOf(argT(fa, c, 0))
-				if d != nil && a.IsCall("sdk.DecCoins.AmountOf") {
-					// decided on relations, so that GT/LT, their negated LTE/GTE forms and swapped operands all count
-					gt, lt := false, false
-					for _, rel := range fa.FactsAt(c) {
-						if rel.TA == nil || rel.TB == nil {
-							continue
+				// the coin subtracted, case by case (two calls in two branches, or one call of a value chosen before)
+				coins := argT(fa, c, 0)
+				var el *Term
+				if coins.IsCall("sdk.NewDecCoins") && len(coins.Args) == 1 {
+					el = singleCoin(&Term{Op: "call", Name: "sdk.NewCoins", Args: []*Term{coins.Args[0]}})
+				}
+				if el == nil {
+					r.Bad(k, "clamp branch", "cannot recognise the coin that is subtracted: "+coins.String(), nil, r.P(c))
+					continue
+				}
+				for _, vc := range fa.ValueCases(el, c) {
+					d, a := decCoinOf(vc.T)
+					if d != nil && a != nil && a.IsCall("sdk.DecCoins.AmountOf") {
+						// decided on relations, so that GT/LT, their negated LTE/GTE forms and swapped operands all count
+						gt, lt := false, false
+						for _, g := range vc.Guards {
+							for _, rel := range relsOf(g) {
+								if rel.TA == nil || rel.TB == nil {
+									continue
+								}
+								ta, tb, op := rel.TA, rel.TB, rel.Op
+								if ta.Eq(a) {
+									ta, tb, op = tb, ta, flipOp[op]
+								}
+								if op == ">" && tb.Eq(a) && strings.HasSuffix(ta.String(), ".Amount") {
+									gt = true
+								}
+								ta, tb, op = rel.TA, rel.TB, rel.Op
+								if ta.IsCall("math.LegacyOneDec") {
+									ta, tb, op = tb, ta, flipOp[op]
+								}
+								if op == "<" && tb.IsCall("math.LegacyOneDec") && ta.IsCall("math.LegacyDec.Sub") && ta.Args[1].Eq(a) && strings.HasSuffix(ta.Args[0].String(), ".Amount") {
+									lt = true
+								}
+							}
 						}
-						ta, tb, op := rel.TA, rel.TB, rel.Op
-						if ta.Eq(a) {
-							ta, tb, op = tb, ta, flipOp[op]
+						clamp = gt && lt
+						if !clamp {
+							r.Bad(k, "clamp branch", "the available amount is subtracted (result clamped to zero) on a path that is not `requested > available and the excess is below one share`", nil, r.P(c))
 						}
-						// requested > available
-						if op == ">" && tb.Eq(a) && strings.HasSuffix(ta.String(), ".Amount") {
-							gt = true
-						}
-						// requested - available < 1
-						ta, tb, op = rel.TA, rel.TB, rel.Op
-						if ta.IsCall("math.LegacyOneDec") {
-							ta, tb, op = tb, ta, flipOp[op]
-						}
-						if op == "<" && tb.IsCall("math.LegacyOneDec") && ta.IsCall("math.LegacyDec.Sub") && ta.Args[1].Eq(a) && strings.HasSuffix(ta.Args[0].String(), ".Amount") {
-							lt = true
-						}
-					}
-					clamp = gt && lt
-					if !clamp {
-						r.Bad(k, "clamp branch", "the available amount is subtracted (result clamped to zero) on a path that is not `requested > available and the excess is below one share`", nil, r.P(c))
-					}
-				} else {
-					el := singleCoin(&Term{Op: "call", Name: "sdk.NewCoins", Args: []*Term{argT(fa, c, 0).Args[0]}})
-					if el != nil && strings.Contains(el.String(), "$d2s[") {
+					} else if strings.Contains(vc.T.String(), "$d2s[") {
 						plain = true
 					}
 				}
@@ -316,4 +347,50 @@ func phiFeeds(phi, target *ssa.Phi) bool {
 		return false
 	}
 	return visit(target)
+}
+
+// paramRooted: t is a parameter or a chain of field selections / dereferences of one.
+func paramRooted(t *Term) bool {
+	for {
+		switch t.Op {
+		case "param":
+			return true
+		case "field", "deref":
+			if len(t.Args) == 0 {
+				return false
+			}
+			t = t.Args[0]
+		default:
+			return false
+		}
+	}
+}
+
+// expandTopCall: t is a call of a module function with a body: the cases of that function's (first) result with its
+// parameters replaced by the call's arguments.  nil when t is not such a call.
+func (e *Engine) expandTopCall(t *Term) []*Term {
+	if t.Op != "ncall" && t.Op != "call" {
+		return nil
+	}
+	call, ok := t.Instr.(ssa.CallInstruction)
+	if !ok {
+		return nil
+	}
+	fn := call.Common().StaticCallee()
+	if fn == nil || fn.Blocks == nil || fn.Pkg == nil || !smPkgs[fn.Pkg.Pkg.Path()] {
+		return nil
+	}
+	hfa := e.FA(fn)
+	m := map[string]*Term{}
+	args := t.CallArgsT()
+	for i, p := range fn.Params {
+		if i < len(args) {
+			m[reviewedParamName(p)] = args[i]
+		}
+	}
+	var out []*Term
+	for _, rc := range hfa.ReturnCases(0) {
+		out = append(out, subst(rc.T, m))
+	}
+	return out
 }
